@@ -1074,3 +1074,21 @@ def function_results(f, ix):
         for cs, x in result_table(ix, e):
             out.append((pre + cs, x))
     return out
+
+
+def deep_chain(ix, defs, e, depth=0):
+    """chain(e) continued through immutable lets, inlined helpers and blocks: `let a = x.f(); a.g()` is (x, [f, g])"""
+    e = tail_value(value_source(ix, defs, e))
+    while e.get("k") == "blockexpr" and "tail" in e["b"]:
+        e = tail_value(value_source(ix, defs, e["b"]["tail"]))
+    b, ms = chain(e)
+    b0 = peel(b)
+    if depth < 8 and b0.get("k") == "local":
+        src = value_source(ix, defs, b0)
+        if src is not b0 and not (src.get("k") == "local" and src.get("id") == b0.get("id")):
+            b2, ms2 = deep_chain(ix, defs, src, depth + 1)
+            return b2, ms2 + ms
+    if depth < 8 and b0.get("k") == "blockexpr":
+        b2, ms2 = deep_chain(ix, defs, b0, depth + 1)
+        return b2, ms2 + ms
+    return b, ms
